@@ -118,16 +118,36 @@ RESULT_KIND = {'mev_nested': 'pvdict', 'mev_nested_mu': 'pvdict', 'mev_cnl': 'pv
                'ordered_logit': 'edict', 'ordered_probit': 'edict'}
 
 
+def coq_opt_string(x):
+    return 'None' if x is None else f'(Some {coq_string(x)})'
+
+
+def carried_names_coq(c):
+    """names held by the nest objects when the specification is built (Model: carried_name)"""
+    n = len(c['nests'])
+    names = c.get('names') or [None] * n
+    prev = c.get('prev_pos') or [None] * n
+    return [f'(carried_name {coq_opt_string(names[j])} {"None" if not prev[j] else f"(Some {cz(int(prev[j]))})"})'
+            for j in range(n)]
+
+
 def nests_to_coq(c, syntax):
+    named = bool(c.get('names') or c.get('prev_pos'))
     if c['kind'] in NESTED_KINDS:
         if syntax == 'legacy':
             return '(NNLegacy ' + coq_l([f'({pv_to_coq(p)}, {zl(a)})' for p, a in c['nests']]) + ')'
-        return (f'(NNObj {zl(c["choice_set"])} '
-                + coq_l([f'(mkNN {pv_to_coq(p)} {zl(a)})' for p, a in c['nests']]) + ')')
+        ns = [f'(mkNN {pv_to_coq(p)} {zl(a)})' for p, a in c['nests']]
+        if named:
+            return (f'(NNObjNamed {zl(c["choice_set"])} '
+                    + coq_l([f'({nm}, {n})' for nm, n in zip(carried_names_coq(c), ns)]) + ')')
+        return f'(NNObj {zl(c["choice_set"])} ' + coq_l(ns) + ')'
     if syntax == 'legacy':
         return '(CNLegacy ' + coq_l([f'({pv_to_coq(p)}, {dict_to_coq(a)})' for p, a in c['nests']]) + ')'
-    return (f'(CNObj {zl(c["choice_set"])} '
-            + coq_l([f'(mkCN {pv_to_coq(p)} {dict_to_coq(a)})' for p, a in c['nests']]) + ')')
+    ns = [f'(mkCN {pv_to_coq(p)} {dict_to_coq(a)})' for p, a in c['nests']]
+    if named:
+        return (f'(CNObjNamed {zl(c["choice_set"])} '
+                + coq_l([f'({nm}, {n})' for nm, n in zip(carried_names_coq(c), ns)]) + ')')
+    return f'(CNObj {zl(c["choice_set"])} ' + coq_l(ns) + ')'
 
 
 def model_call(c, syntax, r):
@@ -178,7 +198,12 @@ def case_to_coq(name, c, res):
         if exp is None:
             checks.append('false')
             continue
-        checks.append(f'res_eqb {eqb} {model_call(c, syn, r)} {exp}')
+        chk = f'res_eqb {eqb} {model_call(c, syn, r)} {exp}'
+        if syn == 'objects' and isinstance(r.get('names'), list) and 'nests' in c:
+            # the names Nests.__init__ leaves on the nest objects vs the model of the naming
+            chk = (f'({chk}) && list_eqb String.eqb (assign_names {coq_l(carried_names_coq(c))}) '
+                   + coq_l([coq_string(x) for x in r['names']]))
+        checks.append(chk)
     return f'Definition {name} : list bool :=\n  ' + '\n  '.join(lets) + '\n  ' + coq_l(checks) + '.\n'
 
 
@@ -209,10 +234,22 @@ def g_util(rng, alts, allow_numbers=True):
     return u
 
 
+def g_const_av(rng, alts, want_zero=True):
+    """availabilities given as plain Python numbers only (no Expression): 1 / 1.0 / True and 0 / 0.0 / False"""
+    while True:
+        av = [[i, {'n': rng.choice([1, 1.0, True, 1]) if rng.random() < 0.6 else rng.choice([0, 0.0, False])}]
+              for i in alts]
+        vals = [float(v['n']) for _, v in av]
+        if any(vals) and (not want_zero or len(alts) < 2 or not all(vals)):
+            return av
+
+
 def g_av(rng, alts):
     r = rng.random()
-    if r < 0.3:
+    if r < 0.25:
         return None
+    if r < 0.40:
+        return g_const_av(rng, alts, want_zero=rng.random() < 0.85)
     av = []
     for i in alts:
         q = rng.random()
@@ -440,6 +477,71 @@ NESTED_FAULTS = ['overlap', 'foreign', 'empty', 'dup', 'zero', 'nonests', 'small
 CNL_FAULTS = ['foreign', 'empty', 'zero', 'zeromu', 'nonests', 'smallcs']
 
 
+NAME_POOL = ['A', 'B', 'A', 'nest_1', 'nest_2', 'nest_2', 'Nest']
+
+
+def add_names(rng, c, mode=None):
+    """nest objects that bear a name given by the user and / or were already used, at some position, in an
+    earlier specification (they keep the name generated there); equal names arise in both ways"""
+    n = len(c.get('nests') or [])
+    if n == 0:
+        return c
+    mode = mode or rng.choice(['explicit', 'equal', 'history', 'collision', 'mixed'])
+    names, prev = [None] * n, [None] * n
+    if mode == 'explicit':
+        names = [rng.choice(NAME_POOL + [None]) for _ in range(n)]
+    elif mode == 'equal':
+        names = ['N'] * n
+    elif mode == 'history':
+        prev = [rng.choice([None, 1, 2, 3]) for _ in range(n)]
+    elif mode == 'collision':
+        # the object now at position j was at position k > j before; the unnamed nest now at k collides
+        j = rng.randrange(n)
+        k = rng.randrange(n)
+        if n >= 2:
+            while k == j:
+                k = rng.randrange(n)
+        prev[j] = k + 1
+    else:
+        names = [rng.choice(NAME_POOL + [None, None]) for _ in range(n)]
+        prev = [rng.choice([None, None, 1, 2, 3]) for _ in range(n)]
+    c['names'], c['prev_pos'] = names, prev
+    return c
+
+
+def gen_name_cases(rng):
+    """every builder that takes nests x (equal explicit names | names colliding through re-use), >= 2 nests"""
+    out = []
+    for kind in NESTED_KINDS + CNL_KINDS:
+        for mode in ('equal', 'collision'):
+            while True:
+                c = g_nested_case(rng, kind) if kind in NESTED_KINDS else g_cnl_case(rng, kind)
+                if len(c['nests']) >= 2:
+                    break
+            out.append(add_names(rng, c, mode))
+    return out
+
+
+def gen_const_av_cases(rng):
+    """every builder x availabilities that are plain Python numbers with at least one 0"""
+    out = []
+    for kind in NESTED_KINDS + CNL_KINDS + ('loglogit', 'logit', 'logmev', 'mev'):
+        while True:
+            if kind in NESTED_KINDS:
+                c = g_nested_case(rng, kind)
+            elif kind in CNL_KINDS:
+                c = g_cnl_case(rng, kind)
+            else:
+                c = g_logit_case(rng, kind)
+                if kind in ('logmev', 'mev') and len(c['log_gi']) != len(c['util']):
+                    continue
+            if len(c['util']) >= 2:
+                break
+        c['av'] = g_const_av(rng, [k for k, _ in c['util']])
+        out.append(c)
+    return out
+
+
 def gen_dup_cases(rng):
     """refusal cases: every nested-logit builder x the position of the repeated alternative (both syntaxes)"""
     out = []
@@ -454,17 +556,23 @@ def gen_dup_cases(rng):
 
 
 def gen_build_cases(rng, n):
-    cases = gen_dup_cases(rng)
+    cases = gen_dup_cases(rng) + gen_name_cases(rng) + gen_const_av_cases(rng)
     for _ in range(n):
         r = rng.random()
         if r < 0.42:
             kind = rng.choice(NESTED_KINDS)
             fault = rng.choice(NESTED_FAULTS) if rng.random() < 0.15 else None
-            cases.append(g_nested_case(rng, kind, fault))
+            c = g_nested_case(rng, kind, fault)
+            if rng.random() < 0.25 and 'syntaxes' not in c:
+                add_names(rng, c)
+            cases.append(c)
         elif r < 0.80:
             kind = rng.choice(CNL_KINDS)
             fault = rng.choice(CNL_FAULTS) if rng.random() < 0.15 else None
-            cases.append(g_cnl_case(rng, kind, fault))
+            c = g_cnl_case(rng, kind, fault)
+            if rng.random() < 0.25 and 'syntaxes' not in c:
+                add_names(rng, c)
+            cases.append(c)
         elif r < 0.90:
             cases.append(g_logit_case(rng, rng.choice(['loglogit', 'logit', 'logmev', 'mev'])))
         else:
@@ -526,7 +634,8 @@ def nontrivial_build(c, res):
 
 
 def stream_build(ctx, n_quick=220, n_thorough=4000):
-    st = ctx.stream('build', 'generated (V incl. numeric, av incl. None / numbers / shuffled, nest structures: '
+    st = ctx.stream('build', 'generated (V incl. numeric, av incl. None / numbers / plain Python numbers only with a 0 / shuffled, nest '
+                    'objects with user names, equal names, names kept from an earlier specification; nest structures: '
                     'partitions, alternatives alone, overlapping nests with alphas, numeric / Beta / Numeric / '
                     'expression nest parameters, mu, choice; faults: overlap, foreign alternative, empty nest, '
                     'alternative repeated inside a nest (first/middle/last position, all 7 nested builders, must be refused with '
@@ -554,7 +663,7 @@ def stream_build(ctx, n_quick=220, n_thorough=4000):
         # C06 legacy clause, on the implementation alone: both syntaxes give the same tree
         if 'legacy' in r and 'objects' in r and c.get('choice_set') == [k for k, _ in c.get('util', [])]:
             a, b = dict(r['legacy']), dict(r['objects'])
-            a.pop('msg', None), b.pop('msg', None)
+            a.pop('msg', None), b.pop('msg', None), a.pop('names', None), b.pop('names', None)
             if a != b:
                 legacy_diff.append((c, r))
     for i0 in range(0, len(cases), B):
@@ -848,9 +957,14 @@ FAMILY_FN = {'logit': ('logit', 'loglogit'), 'mev': ('mev', 'logmev'), 'nested':
 
 def gen_value_cases(rng, n):
     cases = []
-    for _ in range(n):
-        fam = rng.choice(['logit', 'mev', 'nested', 'nested', 'nested_mu', 'cnl', 'cnl', 'cnlmu',
-                          'ordered_logit', 'ordered_probit'])
+    plan = [(f, True) for f in ('logit', 'mev', 'nested', 'nested_mu', 'cnl', 'cnlmu')]   # constant availabilities
+    for it in range(n + len(plan)):
+        const_av = False
+        if it < len(plan):
+            fam, const_av = plan[it]
+        else:
+            fam = rng.choice(['logit', 'mev', 'nested', 'nested', 'nested_mu', 'cnl', 'cnl', 'cnlmu',
+                              'ordered_logit', 'ordered_probit'])
         if fam in ('ordered_logit', 'ordered_probit'):
             c = g_ordered_case(rng, fam)
             while len(c['vals']) < 2 or len(set(c['vals'])) != len(c['vals']) or 'e' not in c['tau'] \
@@ -877,11 +991,15 @@ def gen_value_cases(rng, n):
         c['family'] = fam
         c.pop('syntaxes', None)
         c['choice'] = None
+        if const_av:
+            c['av'] = g_const_av(rng, [k for k, _ in c['util']])
+        syn = rng.choice(['legacy', 'objects'])
+        if syn == 'objects' and 'nests' in c and rng.random() < 0.3:
+            add_names(rng, c)
         c['betas'] = set_betas(rng, c)
         c['rows'] = gen_rows(rng, c, 3)
         c['shift'] = rng.choice([-3, -1.5, 0.5, 1, 2.25, 5])
         pf, lf = FAMILY_FN[fam]
-        syn = rng.choice(['legacy', 'objects'])
         calls = [{'name': 'AV', 'fn': 'AV'}, {'name': 'V', 'fn': 'V'},
                  {'name': 'P', 'fn': pf, 'trees': True, 'syntax': syn}, {'name': 'logP', 'fn': lf, 'syntax': syn}]
         if fam != 'mev':
@@ -910,7 +1028,7 @@ def stream_prob_values(ctx, n_quick=110, n_thorough=1500):
     st = ctx.stream('prob_values', 'logit / MEV with user ln G_i / nested / nested+mu / cnl / cnl+mu / ordered logit '
                     '/ ordered probit on generated (V, av, nests, mu, Beta values) and 3 random rows each; engine '
                     '(get_value_c) probabilities of ALL alternatives: sum in [1 +- 1e-9], each in [0,1], exactly 0 when '
-                    'unavailable, exp(logP) = P, P(V+c) = P(V) (1e-9); plus engine value vs proved interval enclosure '
+                    'unavailable (also when the availabilities are plain Python numbers), exp(logP) = P, P(V+c) = P(V) (1e-9); plus engine value vs proved interval enclosure '
                     'of evalX of the same tree (lib/values.py) on the first row; non-trivial = row with >= 2 '
                     'alternatives of which >= 1 available')
     rng = ctx.sub_rng('prob_values')
@@ -976,11 +1094,26 @@ KIND_FAMILY = {'loglogit': 'logit', 'logit': 'logit', 'logmev': 'mev', 'mev': 'm
                'mev_cnl_mu': 'cnlmu', 'ordered_logit': 'ordered_logit', 'ordered_probit': 'ordered_probit'}
 
 
+def cnl_alphas_positive(c):
+    """cross-nested case inside the quantifier of the property: every listed alternative has a positive alpha"""
+    pos, members = set(), set()
+    for p, al in c.get('nests') or []:
+        for k, a in al:
+            members.add(k)
+            if not ('n' in a and float(a['n']) == 0):
+                pos.add(k)
+    return members <= pos
+
+
 def value_case_from_build(rng, bc, rows=5):
     """turn a (disagreeing) case of the structural stream into a case of the value stream"""
     import copy
     c = copy.deepcopy(bc)
     fam = KIND_FAMILY[c['kind']]
+    if fam in ('cnl', 'cnlmu') and not cnl_alphas_positive(c):
+        return None
+    if c.get('fault'):
+        return None
     c['family'] = fam
     c.pop('fault', None)
     if fam.startswith('ordered'):
